@@ -735,6 +735,7 @@ static void LZ4IO_readAndProcess(void* arg)
         if (inSize > chunkSize) {
             END_PROCESS(32, "Read error (read %u > %u [chunk size])", (unsigned)inSize, (unsigned)chunkSize);
         }
+        if (ferror(rjd->fin)) END_PROCESS(56, "Read error : cannot read input");
         rjd->totalReadSize += inSize;
         /* special case: nothing left: stop read operation */
         if (inSize == 0) {
